@@ -747,6 +747,13 @@ pub struct L5 {
     many: Vec<syn::LitFloat>,
     #[darling(with = darling::util::parse_expr::parse_str_literal, map = Some)]
     pstr: Option<syn::Expr>,
+    spvl: Option<SpannedValue<Vec<syn::LitStr>>>,
+    sphm: Option<SpannedValue<HashMap<String, String>>>,
+    spmeta: Option<SpannedValue<syn::Meta>>,
+    sppl: Option<SpannedValue<darling::util::PathList>>,
+    spres: Option<SpannedValue<darling::Result<u8>>>,
+    wovl: Option<WithOriginal<Vec<syn::LitInt>, syn::Meta>>,
+    ovpl: Option<Override<darling::util::PathList>>,
 }
 
 macro_rules! opaque {
